@@ -98,15 +98,35 @@ def strict_opb(text):
 
 
 def out_format(tool, argv):
-    fmt = 'opb' if tool == 'pbgen' else 'dimacs'
+    """the output format the LEADING options ask for (what the comment marker of every message must follow): the same reading as
+    cnfgen/clitools/cmdline.py early_output_format - exact spellings -of/--output-format <fmt>, --output-format=<fmt>, -l/--latex;
+    -o/--output and -S/--seed take an argument; any other dash token is a flag; the first other token ends the options.
+    pbgen refuses dimacs: its messages keep its own marker."""
+    default = 'opb' if tool == 'pbgen' else 'dimacs'
+    fmt = default
     a = [str(x) for x in argv]
-    for i, t in enumerate(a):
-        if t in ('-of', '--output-format') and i + 1 < len(a) and a[i + 1] in PREFIX:
-            fmt = a[i + 1]
-        if t in ('-l', '--latex'):
+    i = 0
+    while i < len(a):
+        t = a[i]
+        if t in ('-of', '--output-format'):
+            if i + 1 < len(a) and a[i + 1] in PREFIX:
+                fmt = a[i + 1]
+            i += 2
+        elif t.startswith('--output-format='):
+            if t.split('=', 1)[1] in PREFIX:
+                fmt = t.split('=', 1)[1]
+            i += 1
+        elif t in ('-l', '--latex'):
             fmt = 'latex'
-        if t == '-T' or (not t.startswith('-') and not t.lstrip('-').replace('.', '').isdigit()):
+            i += 1
+        elif t in ('-o', '--output', '-S', '--seed'):
+            i += 2
+        elif t.startswith('-') and t != '-':
+            i += 1
+        else:
             break
+    if tool == 'pbgen' and fmt == 'dimacs':
+        fmt = 'opb'
     return fmt
 
 
